@@ -637,6 +637,24 @@ def psd_axioms(P):
     P.facts.append(z3.ForAll([X, Y], z3.Implies(z3.And(gate.psd(X), gate.psd(Y)), gate.psd(mat_add(X, Y))), patterns=[mat_add(X, Y)]))
 
 
+def config_stub():
+    """A python.Config as a constructor sees it: every field present, each with an arbitrary value of its type (CSE on or off, any
+    threshold or none decided by the paths that ask, any maximum step, extra validation on or off, some modules object)."""
+    from pvc.sym import SBool
+
+    return SObj(
+        "Config",
+        {
+            "common_subexpression_elimination": SBool(z3.Bool("config.common_subexpression_elimination")),
+            "python_modules": SObj("PythonModules", {}, "config.python_modules"),
+            "extra_validation": SBool(z3.Bool("config.extra_validation")),
+            "max_dt_sec": SNum(z3.Real("config.max_dt_sec")),
+            "innovation_filtering": SNum(z3.Real("config.innovation_filtering")),
+        },
+        "config",
+    )
+
+
 class RemoveInnovation(Contract):
     """ExtendedKalmanFilter.remove_innovation(innovation, S_inv)
     requires innovation is (m,1), S_inv is (m,m), m >= 1.
@@ -919,7 +937,7 @@ class SensorModelInit(Contract):
         x = z3.Const("cx", Sym)
         P.facts.append(z3.ForAll([x], z3.Implies(Cal.has(x), cm.has(x)), patterns=[Cal.has(x)]))
         obj = SObj(cls, {}, "sensor_model")
-        return Call([obj, ui, sm, cm, SObj("Config", {}, "config")], {}, obj=obj, S=S, Cal=Cal, sm=sm, cm=cm)
+        return Call([obj, ui, sm, cm, config_stub()], {}, obj=obj, S=S, Cal=Cal, sm=sm, cm=cm)
 
     def post(self, I, call, outcome):
         from pvc.symtheory import card_f, srt_f
@@ -1064,7 +1082,7 @@ class ConstructProcessNoise(Contract):
         ekf = SObj(cls, {"state_size": SInt(card_f(ui.S.term)), "control_size": SInt(card_f(ui.U.term)), "calibration_size": SInt(card_f(ui.Cal.term)), "arglist_state": ui.S.sorted_seq(), "arglist_control": ui.U.sorted_seq(), "arglist_calibration": ui.Cal.sorted_seq()}, "ekf")
         X = z3.Const("anyM", Mat)
         P.facts.append(z3.ForAll([X], gate.gate_ok(X), patterns=[gate.gate_ok(X)]))  # requires: the assembled matrix is a valid covariance
-        return Call([ekf], {"state_model": ui.obj, "process_noise": pn, "calibration_map": cm, "config": SObj("Config", {}, "config")}, ekf=ekf, ui=ui, pn=pn, cm=cm)
+        return Call([ekf], {"state_model": ui.obj, "process_noise": pn, "calibration_map": cm, "config": config_stub()}, ekf=ekf, ui=ui, pn=pn, cm=cm)
 
     def post(self, I, call, outcome):
         from pvc.symtheory import card_f, srt_f
@@ -1323,7 +1341,7 @@ class ConstructSensors(Contract):
         mod = I.load_module("formak.python")
         cls = I.module_attr(mod, "ExtendedKalmanFilter")
         ekf = SObj(cls, {"state_size": SInt(card_f(ui.S.term)), "control_size": SInt(card_f(ui.U.term)), "calibration_size": SInt(card_f(ui.Cal.term)), "arglist_state": ui.S.sorted_seq(), "arglist_control": ui.U.sorted_seq(), "arglist_calibration": ui.Cal.sorted_seq()}, "ekf")
-        return Call([ekf], {"state_model": ui.obj, "sensor_models": sms, "sensor_noises": sns, "calibration_map": cm, "config": SObj("Config", {}, "config")}, ekf=ekf, ui=ui, keys=keys, models=models, noises=noises)
+        return Call([ekf], {"state_model": ui.obj, "sensor_models": sms, "sensor_noises": sns, "calibration_map": cm, "config": config_stub()}, ekf=ekf, ui=ui, keys=keys, models=models, noises=noises)
 
     def post(self, I, call, outcome):
         from pvc.interp import PyDict, PyList, as_seq2
